@@ -249,9 +249,13 @@ def check(report: Report, repo: Repo) -> None:
                     ok = TM.term_of(got) == TM.term_of(val)
                     if not ok:
                         # a value derived from this option alone (e.g. int -> 1-tuple normalisation)
-                        inside = list(TM.walk(TM.term_of(got)))
+                        # -- in every case: a leaf that no longer contains the option replaces the user's value
+                        # by something else for some inputs (e.g. `eps or 1e-5` discards eps=0)
                         others = [TM.term_of(v2) for o2, v2 in vals.items() if o2 != opt and isinstance(v2, TV)]
-                        ok = TM.term_of(val) in inside and not any(o_ in inside for o_ in others)
+                        ok = True
+                        for _gd, leaf in TM.leaves(got):
+                            inside = list(TM.walk(TM.term_of(leaf)))
+                            ok = ok and TM.term_of(val) in inside and not any(o_ in inside for o_ in others)
                     report.add("R2-options", oc, ok, f"{lab}: constructor option '{opt}' must reach U.{fname}'s parameter '{opt}' (otherwise it is silently ignored or mis-routed)", fmt(got), fmt(val))
                     continue
                 # not a parameter of the functional: consumed at construction or read in forward?
